@@ -76,7 +76,8 @@ def strategy(tier):
         "rho": st.sampled_from([0.0, 0.0, 1.0, 0.5, 0.3, 0.99]), "relative": st.booleans()})
     add_matrix = st.fixed_dictionaries({
         "op": st.just("add_matrix_error"), "axis": axis, "form": st.sampled_from(["cov", "cor", "covariance", "correlation"]),
-        "L": _cor_matrix(), "err": _vec(_err), "relative": st.booleans()})
+        "L": _cor_matrix(), "err": _vec(_err), "relative": st.booleans(),
+        "f32": st.sampled_from([False, False, False, True])})  # an absolute covariance matrix handed over in single precision (its values are what they are; the sum stays double)
     toggle = st.fixed_dictionaries({"op": st.sampled_from(["disable", "enable", "toggle_check"]), "src": st.integers(0, 10)})
     change = st.fixed_dictionaries({"op": st.just("set_values"), "how": st.sampled_from(["data", "x", "y", "xy", "xy_T", "fill", "rebin", "params", "model_x"]),
                                     "values": _vec(_val), "values2": _vec(_val)})
@@ -275,13 +276,21 @@ def run(case):
                 h.sources.append({"name": name, "axis": ax, "kind": "simple", "err": e, "rho": float(op["rho"]), "relative": rel, "enabled": True})
             else:
                 R, e, M = _matrix_from(op["L"], op["err"], n, op["form"])
+                if op.get("f32") and not rel and not op["form"].startswith("cor"):
+                    M = M.astype(np.float32)
+                    M = 0.5 * (M + M.T)
+                    M32 = M.copy()
+                    M = M.astype(float)  # the reference works with exactly the numbers that were declared
+                    h.labels.add("float32_matrix")
+                else:
+                    M32 = None
                 with guard(f"add_matrix_error[{h.kind}]"):
                     kw = dict(name=name, relative=rel)
                     if op["form"].startswith("cor"):
                         args = (R.copy(), op["form"])
                         kw["err_val"] = e.copy()
                     else:
-                        args = (M.copy(), op["form"])
+                        args = (M.copy() if M32 is None else M32, op["form"])
                     if h.two_axes:
                         h.c.add_matrix_error(op["axis"], *args, **kw)
                     else:
@@ -391,10 +400,14 @@ def run(case):
                     else:
                         h.params = [v[0] / 10.0, v2[0] / 10.0]
                     with guard("set:parameters"):
-                        buf = list(h.params)
-                        h.c.parameters = buf
-                    if case.get("reuse_buffers") and False:
-                        scribble(buf)  # not done: the parameters setter documents no copy and the fits rely on passing their own array
+                        if case.get("reuse_buffers"):
+                            # one parameter list, updated in place and assigned again (not overwritten afterwards: the setter documents no copy)
+                            if not hasattr(h, "pbuf"):
+                                h.pbuf = list(h.params)
+                            h.pbuf[:] = list(h.params)
+                            h.c.parameters = h.pbuf
+                        else:
+                            h.c.parameters = list(h.params)
                     if h.kind == "indexed_model":
                         h.vals[1] = h.f(*h.params)
                     elif h.kind == "xy_model":
